@@ -23,9 +23,13 @@ package chain
 //@ pred groupPre(g) := cat(cat(cat(cat(nil, enc(1, 4, g.Period / 1000000000)), enc(1, 8, g.GenesisTime)), marshalOf(keyOf(g.PublicKey))), g.GenesisSeed)
 //@ pred groupHashStr(g) := hexOf(ite(g.ID == "default" || g.ID == "", digest(256, groupPre(g)), digest(256, cat(groupPre(g), strBytes(g.ID)))))
 
+// infoHashOf(i): the value Hash() returns for the info object i (assumption: the functions under contract do not change an
+// Info between two calls of Hash, so the hash is a function of the object)
+//@ ghost infoHashOf(ref) bytes
 //@ func (*Info).Hash(i) (r)
 //@   props C17 C20
 //@   modifies tr(all), hkind(all)
+//@   defines r == infoHashOf(i)
 //@   ensures [C17:chain-hash-is-exactly-the-digest-of-its-five-parameters] common.validPeriod(i.Period) ==> r == chainHashSpec(i)
 
 //@ func (*Info).HashString(i) (s)
